@@ -6,7 +6,10 @@ Decided structural clauses:
  D3 every entry of the right-hand side is scaled by 1/M (M = number of samples) exactly once on every path
  D4 label signs stay attached: the sign factor of an accumulation derives from self.classes[k] for the very sample data[k]
  D5 the normalising division is guarded by a non-zero test on a divisor built from the clipped values and the weights
-Not decided: the Gram entries themselves, positive definiteness, agreement of the three hat evaluations (numerical)."""
+ D6 uniform-grid Gram entries as polynomial identities: with h = 2^-l the per-dimension factors are 2h/3 = 1/(3*2^(l-1)) for
+    identical hats and h/6 = 1/(12*2^(l-1)) for neighbouring hats, 0 for disjoint supports; the diagonal is the product of the
+    first over all dimensions
+Not decided: the non-uniform Gram entries, positive definiteness, agreement of the three hat evaluations (numerical)."""
 import ast
 
 from ..cfg import cfg_of, walk_local
@@ -206,6 +209,9 @@ def run(prog, ctx):
                               "`%s` uses only part of / a permutation of the label vector against all samples" % src(st)[:100])
     ctx.floor("C16.D4", n4, 7, "label-sign sites in the right-hand side builders")
 
+    # ------------------------------------------------------------------ D6
+    check_uniform_gram(prog, ctx)
+
     # ------------------------------------------------------------------ D5
     for fq in (DE + ".solve_density_estimation", DE + ".solve_density_estimation_dimension_wise"):
         fi = prog.func(fq)
@@ -240,3 +246,75 @@ def run(prog, ctx):
         ctx.check(ok and bool(defs), "C16.D5", R.key_of(fi, "guarded-normalisation"), fi.loc(),
                   "the surpluses are divided by the mean of the positive parts only when it is non-zero",
                   "normalisation of the surpluses: " + why)
+
+
+def gram_factor_checks(prog, ctx, fi, rule, mass_names=("res",), lv="levelvec"):
+    """Per-dimension factors multiplied into an entry under the three overlap cases, compared with the hat-function integrals."""
+    from ..absint import poly_of_term, Poly
+    tm = Terms(fi.node, max_depth=0)
+    c = cfg_of(fi)
+    out = []
+    for n in c.nodes:
+        if n.kind == "stmt" and isinstance(n.ast, ast.AugAssign) and isinstance(n.ast.op, ast.Mult) and isinstance(n.ast.target, ast.Name) \
+                and n.ast.target.id in mass_names and n.idx in c.reachable():
+            out.append((n, tm.term(n.ast.value)))
+    return out
+
+
+def check_uniform_gram(prog, ctx):
+    from ..absint import poly_of_term, Poly
+    from fractions import Fraction
+    br = prog.func(DE + ".build_R_matrix")
+    tm = Terms(br.node, max_depth=0)
+    c = cfg_of(br)
+
+    def P(kvar):
+        return ("op", "Pow", (("c", "2"), ("op", "Sub", (("s", ("n", br.params[1]), ("n", kvar)), ("c", "1")))))
+
+    def inv_of(kvar, m):
+        return poly_of_term(("op", "Div", (("c", "1"), ("op", "Mult", (P(kvar), ("c", str(m)))))))
+    facs = gram_factor_checks(prog, ctx, br, "C16.D6")
+    same = [x for x in facs]
+    n_ok = {"identical": 0, "neighbour": 0}
+    problems = []
+    for (n, t) in facs:
+        loops = [l for l in n.loops if isinstance(l, ast.For) and isinstance(l.target, ast.Name)]
+        k = loops[-1].target.id if loops else None
+        guards = [g for (g, gn) in R.dominating_guards(br, n, tm) if gn.kind == "test" and loops and c.in_loop(gn, loops[-1])]
+        eq = any(g[0] == "cmp" and g[1] == "Eq" and g[2][0] == "n" and g[3][0] == "n" for g in guards)
+        p_ = poly_of_term(t)
+        if eq:
+            if p_ == inv_of(k, 3):
+                n_ok["identical"] += 1
+            else:
+                problems.append("identical hats: factor %s is not 1/(3*2^(l-1))" % show(t))
+        else:
+            if p_ == inv_of(k, 12):
+                n_ok["neighbour"] += 1
+            else:
+                problems.append("neighbouring hats: factor %s is not 1/(12*2^(l-1))" % show(t))
+    # diagonal value: product over all dimensions of the identical-hat factor
+    dv_ok = False
+    for b in tm.env.bindings.get("diag_val", []):
+        if b.kind == "assign":
+            t = Terms(br.node).term(b.value)
+            if t[0] == "call" and t[1] == ("a", ("n", "np"), "prod") and t[2] and t[2][0][0] == "comp":
+                comp = t[2][0]
+                body, gens = comp[2], comp[3]
+                rng = gens[0][1]
+                want = ("op", "Div", (("c", "1"), ("op", "Mult", tuple(sorted((("op", "Pow", (("c", "2"), ("op", "Sub", (("s", ("n", br.params[1]), ("bv", "$0")), ("c", "1"))))), ("c", "3")), key=repr)))))
+                dv_ok = poly_of_term(body) == poly_of_term(want) and rng[0] == "call" and rng[1] == ("n", "range") and gens[0][2] == ()
+    if not dv_ok:
+        problems.append("the diagonal value is not the product over all dimensions of 1/(3*2^(l_k-1))")
+    ok = not problems and n_ok["identical"] >= 1 and n_ok["neighbour"] >= 1
+    ctx.check(ok, "C16.D6", R.key_of(br, "uniform-gram-entries"), br.loc(),
+              "uniform Gram factors are 1/(3*2^(l-1)) (identical hats) and 1/(12*2^(l-1)) (neighbours); diagonal = product of the former",
+              "uniform-grid Gram matrix: " + ("; ".join(problems) or "overlap cases not found (identical=%d, neighbour=%d)" % (n_ok["identical"], n_ok["neighbour"])))
+    # disjoint supports contribute nothing
+    zero = False
+    for n in c.nodes:
+        if n.kind == "stmt" and isinstance(n.ast, ast.Assign) and isinstance(n.ast.targets[0], ast.Name) and n.ast.targets[0].id == "res" \
+                and isinstance(n.ast.value, ast.Constant) and n.ast.value.value == 0 and n.loops:
+            zero = True
+    ctx.check(zero, "C16.D6", R.key_of(br, "disjoint-supports-zero"), br.loc(), "entries of hats with disjoint supports are 0",
+              "build_R_matrix no longer zeroes entries of hats with disjoint supports")
